@@ -92,6 +92,7 @@ type runner struct {
 	pages   []pageObs
 	st0     string
 	first   []int // per partition: index of the first record the whole read covers
+	aborted bool  // a query failed: reported through the oracle, the script stops
 	// distribution
 	kinds       map[string]int
 	edgePage    bool
@@ -454,7 +455,11 @@ func (r *runner) exec(st Step, req api.QueryRequest) (*api.QueryResult, error) {
 	want := r.expected(start, lim)
 	res, err := r.doQuery(&req, st.Rpc)
 	if err != nil {
-		return nil, fmt.Errorf("query failed: %v", err)
+		// the implementation refused or failed a well-formed request: a verdict, not a harness failure
+		r.fail("query-error", fmt.Sprintf("page %d kind=%s limit=%d pos=%q: %v", len(r.pages)+1, st.Kind, st.Limit, req.Pos, err))
+		r.aborted = true
+		r.coqApps = r.coqApps[:len(r.coqApps)-1]
+		return &api.QueryResult{NextQueryRequest: req}, nil
 	}
 	nx := res.NextQueryRequest
 	pm, err := parsePos(nx.Pos)
@@ -679,6 +684,7 @@ func main() {
 			c.Add(*cs)
 			return c.Finish(rule)
 		}
+		c.ShardSize = 60 // several shards, evaluated in parallel by the driver
 		var jobs []job
 		for _, rp := range corpus() {
 			rp := rp
